@@ -30,6 +30,10 @@ THEOREMS += ['CC.C03_transfer_perm', 'CC.C03_transfer_rename', 'CC.C03_transfer_
              'CC.C03_sample_state', 'CC.C03_sample_perm', 'CC.C03_sample_rename', 'CC.C03_sample_reverse', 'CC.C03_sample_reref',
              'CC.C10_transfer', 'CC.C10_transfer_unique', 'CC.C12_sample_circuit', 'CC.C12_state_is_output']
 LEAN_MODULE_EXTRA += ['CC.Properties.C03State', 'CC.Properties.C10', 'CC.Properties.C12']
+# translator tie of frequency_components, which TimeDomainSolution (time-function stream of the oracle) depends on
+# (harness/extract_freq.py -> CC/Gen/Freq.lean; CC/Properties/C09Gen.lean; shared with C09)
+THEOREMS += ['CC.C09_gen_frequency_components']
+LEAN_MODULE_EXTRA += ['CC.Properties.C09Gen']
 OPEN_STATEMENTS = ['C03_statespace / C03_transient are theorems about the Spec-side report read from the output VECTOR y = C x + D u (C03_transfer_*, C03_sample_*); that the model\'s output ROWS (c_row_* / d_row_*) deliver that report is still CC.C10_output_rows_statement (open) - rows covered by correspondence + metamorphic oracle only',
                    'C03_transient: the theorems are per sample, for states RELATED by the induced state map (same capacitor voltage / inductor current per renamed element, negated when reversed); that the integrator (scipy lsim, a parameter of the model) keeps two related trajectories related is not a theorem - decided per instance by the transient stream of the oracle',
                    'one composite theorem for rename + permutation + reversal + re-referencing applied together (what the oracle does) is not stated; the four theorems compose only through their hypotheses (well-posedness of each intermediate network)']
